@@ -59,7 +59,7 @@ class World:
             runners.append({"kind": "tracker", "inner": 1, "file": "/d/est.json", "bitstrings": r.random() < 0.5})
         cfg = {"n": n, "runners": runners, "faults": r.choice(["none", "none", "low", "medium"]), "clients": r.randint(1, 2),
                "rng_mode": r.choice(["real", "real", "adversarial"]), "rng_policy": r.choice(POLICIES), "fs_buffer": r.choice([7, 64, 4096])}
-        pf = {"none": 0.0, "low": 0.1, "medium": 0.3}[cfg["faults"]]
+        pf = {"none": 0.0, "low": 0.15, "medium": 0.4}[cfg["faults"]]
         steps = []
         for _ in range(r.randint(2, 10)):
             op = r.choices(["estimate", "exact", "bind"], [7, 2, 1.5])[0]
@@ -102,7 +102,8 @@ class World:
                 s = {"op": "estimate", "args": {"runner": r.randrange(8), "tasks": tasks}}
                 if r.random() < pf:
                     s["fault"] = r.choice([{"kind": "peer", "at": r.randrange(0, 4)}, {"kind": "peer", "at": 0, "how": "no-batch"},
-                                           {"kind": "alloc", "at": r.randrange(0, 40)},
+                                           {"kind": "peer", "at": 0, "how": "no-batch"},
+                                           {"kind": "alloc", "at": r.randrange(0, 40)}, {"kind": "alloc", "at": r.randrange(0, 8)},
                                            {"kind": r.choice(["enospc", "eio", "eacces", "eio_close"]), "at": r.randrange(0, 5), "frac": r.random()}])
             elif op == "exact":
                 tasks = []
